@@ -14,7 +14,7 @@
    step list; every pair i <= j of observation points of a concurrent retrieve.
    "The complete tree" is the tree being stored or the one Retrieve returned before the store
    began (an overwriting store may die before it has changed anything). *)
-From PlzV Require Import Base.Harness Model.C12 Proof.C12 Proof.C12_Fault Proof.C12_Gen Gen.C12Store.
+From PlzV Require Import Base.Harness Model.C12 Proof.C12 Proof.C12_Fault Proof.C12_Dirty Proof.C12_Gen Gen.C12Store.
 
 Definition C12_statement : Prop :=
   forall c order st outs src, inputs_ok c st outs src ->
@@ -215,3 +215,65 @@ Proof.
     + destruct c; [discriminate|reflexivity].
   - repeat split; try (vm_compute; reflexivity). vm_compute. discriminate.
 Qed.
+
+(* ------------------------------------------------------------------------------------------ *)
+(* Retrieve into an out directory that is NOT clean; outputs declared inside sub-directories.
+   "Retrieving a key after storing it restores byte-identical trees" - whatever an earlier build left
+   in the out directory.  Outputs are paths below the out directory ([sub; tree] = "sub/tree"),
+   pairwise incomparable (indepb); T holds, below each output, its stored tree with the root first and
+   in walk order (trees_okb); the cache entry of the key holds exactly those trees (entry_holds: the
+   tarball of their walks / one sub-tree per output); out0 is ANY state of the out directory.  The
+   retrieve is the model's retrieve_into run with the ensureRetrieveReady and the open flags gotrans
+   reads from the current source (gen_opsN / gen_opsT / compressed_write_truncates).  Then: a hit;
+   below every output exactly the stored tree; what is neither below nor above an output untouched. *)
+Theorem C12_dirty_retrieve :
+  forall c st outs T out0,
+    outs <> [] -> indepb outs = true -> trees_okb T outs = true -> entry_holds c st outs T ->
+    exists r, retrieve_into c compressed_write_truncates gen_opsN gen_opsT st outs out0 = Some r
+      /\ (forall p, In p outs -> sub p r = sub p T)
+      /\ (forall q, Forall (fun p => incomp p q) outs -> sub q r = sub q out0).
+Proof. exact dirty_holds_gen. Qed.
+Print Assumptions C12_dirty_retrieve.
+
+(* The same end to end for the outputs the step-list model of Store covers (single path components):
+   Store into ANY prior cache state, then Retrieve into ANY out directory. *)
+Theorem C12_dirty_roundtrip :
+  forall c order st outs src out0, inputs_ok c st outs src -> trees_okb src (tops outs) = true ->
+    exists r, retrieve_into c compressed_write_truncates gen_opsN gen_opsT
+                (run (store_steps c order st outs src) st) (tops outs) out0 = Some r
+      /\ (forall o, In o outs -> sub [o] r = sub [o] src)
+      /\ (forall q, Forall (fun o => incomp [o] q) outs -> sub q r = sub q out0).
+Proof. exact dirty_roundtrip_gen. Qed.
+Print Assumptions C12_dirty_roundtrip.
+
+(* The retrieve side of the model is the source's: ensureRetrieveReady (MkdirAll of the parent for a
+   path with a '/', and always the RemoveAll of the destination), the open flags of the compressed
+   write, and what the uncompressed loop reports for an entry that lacks an output. *)
+Theorem C12_retrieve_source_shape :
+  (gen_opsN = src_opsN /\ gen_opsT = src_opsT /\ compressed_write_truncates = src_trunc)
+  /\ (forall st o r out, lookup [kK; o] st = None ->
+        retr_plain st (o :: r) out
+        = if (plain_found_with_error && notexist_error_keeps_found)%bool then Hit (drop_sub [o] out) else Miss)
+  /\ (forall st p r out, lookup (kK :: p) st = None ->
+        retr_into_plain gen_opsN gen_opsT st (p :: r) out
+        = if (plain_found_with_error && notexist_error_keeps_found)%bool
+          then Some (ready (pick p gen_opsN gen_opsT) p out) else None).
+Proof. exact (conj ready_follows_source (conj plain_notexist_follows_source plain_into_notexist_follows_source)). Qed.
+Print Assumptions C12_retrieve_source_shape.
+
+(* Non-vacuity, and why the removal matters: two nested outputs (a file and a directory) retrieved
+   over a stale directory that holds a longer, executable file and an extra entry.  The hypotheses of
+   C12_dirty_retrieve hold and the result is exactly the stored trees; with ensureRetrieveReady
+   returning before the removal for nested paths (seeded mutation r2-m2) the compressed retrieve keeps
+   the stale tail and mode ("v1" over "longer v2" = "v1nger v2", executable) and both keep sub/t/stale. *)
+Example C12_dirty_nonvacuous :
+  (forall c, entry_holds c (w_entry c) w_douts w_T /\ trees_okb w_T w_douts = true /\ indepb w_douts = true
+     /\ retrieve_into c false src_opsN src_opsT (w_entry c) w_douts w_stale
+        = Some [([s "sub"], D); ([s "sub"; s "n"], F (s "v1") false); ([s "sub"; s "t"], D); ([s "sub"; s "t"; s "a"], F (s "A") false)])
+  /\ retrieve_into true false [OMkdirParent] src_opsT (w_entry true) w_douts w_stale
+     = Some [([s "sub"], D); ([s "sub"; s "t"], D); ([s "sub"; s "t"; s "stale"], F (s "S") false);
+             ([s "sub"; s "n"], F (s "v1nger v2") true); ([s "sub"; s "t"; s "a"], F (s "A") false)]
+  /\ retrieve_into false false [OMkdirParent] src_opsT (w_entry false) w_douts w_stale
+     = Some [([s "sub"], D); ([s "sub"; s "t"], D); ([s "sub"; s "t"; s "stale"], F (s "S") false);
+             ([s "sub"; s "n"], F (s "v1") false); ([s "sub"; s "t"; s "a"], F (s "A") false)].
+Proof. exact (conj w_with_rm (conj w_no_rm_compressed w_no_rm_plain)). Qed.
